@@ -218,6 +218,7 @@ func runTextScoped(p []op, s *scopedDoc) implResult {
 		flushParser()
 		res.frags, res.err = e.ExtractFromBytes(s.page)
 		observe(e, &res, raw)
+		res.bytes, res.depth, res.saved = text.VerifXObjectState(e)
 	})
 	return res
 }
